@@ -410,7 +410,7 @@ class QasmModule(ABC):  # pylint: disable=too-many-instance-attributes
             for idle_idx in idle_indices:
                 del qasm_module._qubit_depths[(reg_name, idle_idx)]
 
-            size = self._qubit_registers[reg_name]
+            size = qasm_module._qubit_registers[reg_name]
 
             if len(idle_indices) == size:  # all qubits are idle
 
@@ -430,7 +430,7 @@ class QasmModule(ABC):  # pylint: disable=too-many-instance-attributes
                 qasm_module._remap_qubits(reg_name, size, idle_indices)
 
             # update the number of qubits
-            self._num_qubits -= len(idle_indices)
+            qasm_module._num_qubits -= len(idle_indices)
 
         # the original ast will need to be updated to the unrolled ast as if we call the
         # unroll operation again, it will incorrectly choose the original ast WITH THE IDLE QUBITS
@@ -455,7 +455,7 @@ class QasmModule(ABC):  # pylint: disable=too-many-instance-attributes
         qasm_module.unroll()
 
         new_qubit_mappings = {}
-        for register, size in self._qubit_registers.items():
+        for register, size in qasm_module._qubit_registers.items():
             new_qubit_mappings[register] = {0: 0}
             if size > 1:
                 new_qubit_mappings[register] = {old_id: size - old_id - 1 for old_id in range(size)}
